@@ -197,6 +197,23 @@ impl Blockchain {
             return AddBlockResult::BlockAlreadyExists;
         }
 
+        // a block at or below the purge horizon is older than anything we keep : storing it again
+        // would leave a block file on disk that no longer connects to the retained chain
+        if !self.blockring.is_empty() {
+            let purge_id = self
+                .get_latest_block_id()
+                .saturating_sub(self.genesis_period * 2);
+            if block.id <= purge_id {
+                warn!(
+                    "block : {:?}-{:?} is at or below the purge horizon : {:?}. not adding",
+                    block.id,
+                    block.hash.to_hex(),
+                    purge_id
+                );
+                return AddBlockResult::FailedNotValid;
+            }
+        }
+
         // get missing block
         if !self.blockring.is_empty() && self.get_block(&block.previous_block_hash).is_none() {
             if block.previous_block_hash == [0; 32] {
